@@ -350,6 +350,12 @@ func (e *Exec) namedLocal(fr *frame, st *State, name string, li *loopInfo) (Valu
 				}
 			}
 		}
+		// the range loop the clause was written for is now an index loop: ridx is its index variable
+		if fr.c != nil && li != nil {
+			if nm, ok := fr.c.RidxVar[li.ord]; ok {
+				return e.namedLocal(fr, st, nm, li)
+			}
+		}
 		return nil, false
 	}
 	if name == "rvisited" {
@@ -369,6 +375,11 @@ func (e *Exec) namedLocal(fr *frame, st *State, name string, li *loopInfo) (Valu
 			}
 		}
 		return nil, false
+	}
+	if fr.c != nil {
+		if cur, ok := fr.c.NameAlias[name]; ok {
+			name = cur
+		}
 	}
 	var best *ssa.Alloc
 	consider := func(a *ssa.Alloc) {
